@@ -369,6 +369,31 @@ enum Chunk {
     Straight(usize),
     MemSto(usize),
     Branch(usize),
+    /// programs of boundary lengths (the length of the code is an operand of CODESIZE, PC and of every jump target)
+    Long,
+}
+
+fn long_programs() -> Vec<Vec<u8>> {
+    let mut out = Vec::new();
+    for len in [255usize, 256, 257, 24_575, 24_576, 24_577, 30_000, 49_152, 65_535, 65_536, 65_537, 70_000] {
+        // CODESIZE and PC stored, rest STOP padding
+        let mut a = vec![0x38, 0x5f, 0x55, 0x58, 0x60, 0x01, 0x55, 0x00];
+        a.resize(len, 0x00);
+        out.push(a);
+        // an unconditional jump to a block at the very end of the code: JUMPDEST PC CODESIZE STOP
+        let t = len - 4;
+        let mut b = vec![0x62, (t >> 16) as u8, (t >> 8) as u8, t as u8, 0x56];
+        b.resize(len, 0x00);
+        b[t..].copy_from_slice(&[0x5b, 0x58, 0x38, 0x00]);
+        out.push(b);
+        // both sides of a branch: CODESIZE on the fall-through path, CODESIZE stored at the far end on the taken path
+        let t = len - 5;
+        let mut c = vec![0x34, 0x62, (t >> 16) as u8, (t >> 8) as u8, t as u8, 0x57, 0x38, 0x60, 0x01, 0x01, 0x00];
+        c.resize(len, 0x00);
+        c[t..].copy_from_slice(&[0x5b, 0x38, 0x5f, 0x55, 0x00]);
+        out.push(c);
+    }
+    out
 }
 
 fn plan(_tier: Tier) -> Vec<Chunk> {
@@ -385,6 +410,7 @@ fn plan(_tier: Tier) -> Vec<Chunk> {
     for c in 0..seq_chunks(branch_alphabet().len()) {
         v.push(Chunk::Branch(c));
     }
+    v.push(Chunk::Long);
     v
 }
 
@@ -509,6 +535,13 @@ impl Check for C07 {
                     true
                 });
             }
+            Chunk::Long => {
+                for code in long_programs() {
+                    if !run_code(ctx, "boundary_lengths", &code) {
+                        ctx.count("outside_domain", 1);
+                    }
+                }
+            }
             Chunk::Branch(c) => {
                 let alpha = branch_alphabet();
                 let max = if tier.thorough() { 7 } else { 6 };
@@ -533,7 +566,7 @@ impl Check for C07 {
                  DUPn/SWAPn for n = 1..16 over stacks of depth n..17; every PUSH width 0..32 x 4 immediates; all straight-line \
                  sequences <= {} over 8 constants + 25 ALU opcodes + POP/DUP1/SWAP1/PC/CODESIZE (prefix-pruned on stack safety); all \
                  sequences <= {} over aligned MSTORE/MLOAD and literal-key SSTORE/SLOAD tokens; all branching programs <= {} tokens \
-                 over constant-condition JUMPI to 3 labels, stores, pushes, pops. The reference EVM enumerates all forced-branch \
+                 over constant-condition JUMPI to 3 labels, stores, pushes, pops; 36 programs of boundary lengths (255..257, 24 575..24 577, 30 000, 49 152, 65 535..65 537, 70 000 bytes) that read CODESIZE and PC at either end and on both sides of a branch. The reference EVM enumerates all forced-branch \
                  paths; the tool's stored final states are evaluated by an independent evaluator and the multiset of (stack, memory \
                  words, per-key ordered write list) must equal the multiset of reference paths. states = distinct validated \
                  programs; traces validated = reference paths matched against implementation states",
